@@ -5,7 +5,7 @@ import json, os, re, subprocess, sys, time, hashlib, shutil
 
 VERIF = os.path.dirname(os.path.dirname(os.path.abspath(__file__)))
 REPO = os.environ.get("VERIF_REPO", "/repo")
-OUT = os.path.join(VERIF, "out")
+OUT = os.environ.get("VERIF_OUT", os.path.join(VERIF, "out"))
 GOSYM = os.path.join(VERIF, "bin", "gosym")
 GO126 = "/opt/veriftools/go1.26.8/bin"
 
